@@ -1,4 +1,5 @@
 import AldorVerif.Lemmas.Linear
+import AldorVerif.Lemmas.LinearBlocks
 
 /-! # C14 (lineariser part): parsing does not depend on layout
 
@@ -16,9 +17,9 @@ inside `#pile` regions, turns indentation into `SetTab` / `BackSet` / `BackTab`.
 * `indent_scale_invariant`       – with `#pile`: re-positioning all columns by a strictly
   increasing map (widths 1..8, tabs or spaces as the scanner measures them) commutes with
   `linearize`: only the order of the indentations matters;
-* `pile_eq_braces_partial`       – piled and braced renderings of the programs of a small block
-  language give the same token list (checked for all programs up to a bound; the general
-  statement is `pile_eq_braces_statement`).
+* `pile_eq_braces`               – piled and braced renderings of every well-formed program of a
+  small block language are linearised to the same token tags (`SetTab/BackSet/BackTab` read as
+  `{ ; }`), for every indentation step and start column.
 
 The scanner and the parser are not modelled: that the scanner's tokens themselves do not depend
 on layout, and that the grammar treats `SetTab/BackSet/BackTab` like `{ ; }`, is checked end to
@@ -161,138 +162,57 @@ theorem indent_scale_widths (m : Bool) (k : Nat) (hk : 0 < k) (ts : List Tok) :
     linearizeMode m (ts.map (Tok.re (· * k) id)) = (linearizeMode m ts).map (Tok.re (· * k) id) :=
   indent_scale_invariant m (· * k) (fun _ _ hab => Nat.mul_lt_mul_of_pos_right hab hk) (by simp) ts
 
-/-- The stronger reading — only the columns of the tokens that *start a line* matter, the other
-columns may change in any way — is not proved here (it is what the layout variants of
-`checks/parts/linear.py` exercise on the compiler). -/
+/-- The stronger reading — only the columns of the tokens that can *start a line* matter (the
+first token, a token after a newline, `#pile`, `#endpile`, `{` or `}`, or the second token after
+an `@`), the other columns may change in any way — is not proved here; it is evaluated on random
+token lists against `linear.c` and the model (`twin_nonleading` in `checks/parts/linear.py`) and
+is what the layout variants of the source programs exercise on the compiler. Comments are
+removed first, so the statement is about comment-free token lists. -/
 def leading_columns_only_statement : Prop :=
-  ∀ (φ : Nat → Nat) (ts ts' : List Tok), StrictMonoNat φ → φ 0 = 0 → SameToks ts ts' →
+  ∀ (m : Bool) (ts ts' : List Tok), (∀ t ∈ ts, t.tag ≠ tkComment) → SameToks ts ts' →
     (∀ i (hi : i < ts.length) (hi' : i < ts'.length),
-        (i = 0 ∨ (∃ hj : i - 1 < ts.length, ts[i - 1].tag = kwNewLine ∨ ts[i - 1].tag = kwStartPile
-          ∨ ts[i - 1].tag = kwEndPile ∨ ts[i - 1].tag = kwOCurly ∨ ts[i - 1].tag = kwCCurly) ∨
-          (∃ hj : i - 2 < ts.length, 2 ≤ i ∧ ts[i - 2].tag = kwAt)) →
-        ts'[i].col = φ ts[i].col) →
-    SameToks (linearize ts) (linearize ts')
+        (i = 0 ∨ (∃ _ : i - 1 < ts.length, 1 ≤ i ∧ (ts[i - 1].tag = kwNewLine ∨ ts[i - 1].tag = kwStartPile
+          ∨ ts[i - 1].tag = kwEndPile ∨ ts[i - 1].tag = kwOCurly ∨ ts[i - 1].tag = kwCCurly)) ∨
+          (∃ _ : i - 2 < ts.length, 2 ≤ i ∧ ts[i - 2].tag = kwAt)) →
+        ts'[i].col = ts[i].col) →
+    SameToks (linearizeMode m ts) (linearizeMode m ts')
 
-/-! ## piles and braces: a small block language -/
+/-! ## piles and braces: a small block language
 
-/-- a statement of the block language: a one-line statement, or a head line followed by a block
-of statements (`f(x) ==` + body, `if c then` + body, …); only the token tags matter -/
-inductive Stmt where
-  | line  (ts : List Tag)
-  | block (head : List Tag) (body : List Stmt)
-deriving Repr, Inhabited
+`Stmt` (Lemmas/LinearBlocks.lean): a statement is one line of ordinary tokens, or a head line
+followed by a block of statements.  `piledProg w d0 p` is the `#pile` text (every statement on
+its own line, bodies indented by `w` more, starting in column `d0`), `bracedProg p` the text with
+`{ ; }` (braces around a body of two or more statements or after a head ending in one of
+`isPileRequired`'s keywords; around the whole program when it has two or more statements).
+`okL p`: the lines are non-empty, made of ordinary tokens, do not begin with a token that cannot
+start a statement and do not end in `,` or an opening bracket (such lines are continued by the
+2-D rules), and a one-line statement does not end in one of the pile keywords. -/
 
-/-- the tokens of one source line starting in column `d`, with its newline token -/
-def lineToks (d : Nat) (ts : List Tag) : List Tok :=
-  (ts.zipIdx.map fun (k, i) => (⟨k, "", 1, d + i⟩ : Tok)) ++ [⟨kwNewLine, "", 1, d + ts.length⟩]
+/-- **C14, piles and braces.**  For every well-formed program of the block language, every
+indentation step `w ≥ 1` and every start column: the piled text, linearised, with
+`SetTab / BackSet / BackTab` read as `{ ; }`, has the same token tags as the linearised braced
+text. -/
+theorem pile_eq_braces (w d0 : Nat) (p : List Stmt) (hw : 0 < w) (hok : okL p = true) (hne : p ≠ []) :
+    (linearize (piledProg w d0 p)).map (fun t => untab t.tag) =
+      (linearize (bracedProg p)).map (·.tag) := by
+  have := pileEqBraces_all w d0 hw p hok hne
+  simpa [pileEqBraces] using this
 
-mutual
-/-- piled rendering: every statement on its own line(s), a body indented by `w` more -/
-def Stmt.piled (w : Nat) : Nat → Stmt → List Tok
-  | d, .line ts => lineToks d ts
-  | d, .block head body => lineToks d head ++ piledL w (d + w) body
-def piledL (w : Nat) : Nat → List Stmt → List Tok
-  | _, [] => []
-  | d, s :: r => s.piled w d ++ piledL w d r
-end
+/-- what both sides are: the tags of the program with brackets around bodies -/
+theorem pile_eq_braces_tags (w d0 : Nat) (p : List Stmt) (hw : 0 < w) (hok : okL p = true) (hne : p ≠ []) :
+    (linearize (piledProg w d0 p)).map (·.tag) = progG kwSetTab kwBackSet kwBackTab p ∧
+    (linearize (bracedProg p)).map (·.tag) = progG kwOCurly kwSemicolon kwCCurly p :=
+  ⟨piled_tags w d0 hw p hok hne, braced_tags p hok hne⟩
 
-/-- the piled program text: `#pile`, then the statements at indentation `d0` -/
-def piledProg (w d0 : Nat) (p : List Stmt) : List Tok := ⟨kwStartPile, "", 1, 1⟩ :: piledL w d0 p
+/-- a program meeting the hypotheses: `f == ⏎ x := 1 ⏎ if x then ⏎ y ⏎ x` and `z` -/
+example : okL [.block [1, 86] [.line [1, 77, 3], .block [38, 1, 61] [.line [1]], .line [1]], .line [1]] = true := by
+  decide
 
-/-- `isPileRequired`'s keywords -/
-def pileKw (k : Tag) : Bool :=
-  k == kwThen || k == kwElse || k == kwWith || k == kwAdd || k == kwTry || k == kwBut ||
-  k == kwCatch || k == kwFinally || k == kwAlways
-
-def kwTok (k : Tag) : Tok := ⟨k, "", 1, 1⟩
-
-mutual
-/-- braced rendering: a block is `{ s1 ; s2 ; … }`; the braces are left out around a single
-statement unless the head ends in a keyword after which a pile is always formed. Newlines are
-put after every `;` and brace (they are layout only). -/
-def Stmt.braced : Stmt → List Tok
-  | .line ts => ts.map kwTok
-  | .block head body =>
-    head.map kwTok ++
-      (if body.length ≥ 2 || (head.getLast?.any pileKw) then
-        [kwTok kwOCurly, kwTok kwNewLine] ++ bracedL body ++ [kwTok kwNewLine, kwTok kwCCurly]
-      else bracedL body)
-def bracedL : List Stmt → List Tok
-  | [] => []
-  | [s] => s.braced
-  | s :: s' :: r => s.braced ++ [kwTok kwSemicolon, kwTok kwNewLine] ++ bracedL (s' :: r)
-end
-
-/-- the braced program text: the whole program in one pair of braces when it has more than one
-statement (this is what a `#pile` around everything amounts to) -/
-def bracedProg (p : List Stmt) : List Tok :=
-  if p.length ≥ 2 then [kwTok kwOCurly, kwTok kwNewLine] ++ bracedL p ++ [kwTok kwNewLine, kwTok kwCCurly]
-  else bracedL p
-
-/-- `SetTab`, `BackSet`, `BackTab` read as `{`, `;`, `}` -/
-def untab (k : Tag) : Tag :=
-  if k == kwSetTab then kwOCurly else if k == kwBackSet then kwSemicolon
-  else if k == kwBackTab then kwCCurly else k
-
-/-- a tag a statement of the block language may contain: an ordinary token -/
-def plainTag (k : Tag) : Bool :=
-  tkStart ≤ k && k < tkLimit && !(k == tkPreDoc || k == tkPostDoc || k == tkComment || k == kwSemicolon ||
-    k == kwAt || k == kwOCurly || k == kwCCurly || k == kwNewLine || k == kwStartPile ||
-    k == kwEndPile || k == kwSetTab || k == kwBackSet || k == kwBackTab || k == 9 || k == 10)
-
-/-- a line that stands on its own in a pile: ordinary tokens, not starting with a token that
-cannot start a statement, not ending in `,` or an opening bracket (such lines are continued) -/
-def lineOk (ts : List Tag) : Bool :=
-  ts.all plainTag && (ts.head?.any fun k => !isNonStarter k) &&
-    (ts.getLast?.any fun k => !(k == kwComma || isOpener k))
-
-mutual
-def Stmt.ok : Stmt → Bool
-  | .line ts => lineOk ts && !(ts.getLast?.any pileKw)
-  | .block head body => lineOk head && !body.isEmpty && okL body
-def okL : List Stmt → Bool
-  | [] => true
-  | s :: r => s.ok && okL r
-end
-
-/-- the statement for one program and one choice of indentation: linearising the piled text and
-reading the tab tokens as braces gives the token tags of the linearised braced text -/
-def pileEqBraces (w d0 : Nat) (p : List Stmt) : Bool :=
-  ((linearize (piledProg w d0 p)).map fun t => untab t.tag) == ((linearize (bracedProg p)).map (·.tag))
-
-/-- full-strength statement: for every well-formed program of the block language, every
-indentation step `w ≥ 1` and every start column `d0 ≥ 1` -/
-def pile_eq_braces_statement : Prop :=
-  ∀ (w d0 : Nat) (p : List Stmt), 0 < w → 0 < d0 → okL p = true → !p.isEmpty → pileEqBraces w d0 p = true
-
-/-! bounded instance: all programs over a small alphabet up to nesting depth 2 -/
-
-def sampleLines : List (List Tag) := [[1], [1, 77, 3]]           -- `x`   `x := 1`
-def sampleHeads : List (List Tag) := [[1, 86], [38, 1, 61]]       -- `f ==`   `if x then`
-
-def lists12 {α : Type} (xs : List α) : List (List α) :=
-  xs.map (fun x => [x]) ++ xs.flatMap (fun x => xs.map fun y => [x, y])
-
-def stmts0 : List Stmt := sampleLines.map .line
-def stmts1 : List Stmt := stmts0 ++ sampleHeads.flatMap fun h => (lists12 stmts0).map (Stmt.block h)
-def stmts2 : List Stmt := sampleHeads.flatMap fun h => (lists12 stmts1).map (Stmt.block h)
-
-def everyNth {α : Type} (n : Nat) (xs : List α) : List α :=
-  (xs.zipIdx.filter fun (_, i) => i % n == 0).map (·.1)
-
-/-- all programs of one or two statements of nesting depth ≤ 1 (210), and a seventh of the
-statements of depth 2, alone (60) and followed by a one-line statement (60) -/
-def samplePrograms : List (List Stmt) :=
-  lists12 stmts1 ++ (everyNth 7 stmts2).map (fun s => [s]) ++ (everyNth 7 stmts2).map (fun s => [s, .line [1]])
-
-/-- **C14, piles and braces (bounded).**  For the 330 sample programs (indentation step 4 from
-column 1) and for every eleventh of them with step 1 from column 3: the piled text, linearised,
-with `SetTab/BackSet/BackTab` read as `{ ; }`, is the linearised braced text. (Kernel
-evaluation; the general statement is `pile_eq_braces_statement`, exercised on random programs
-against model and implementation by `checks/parts/linear.py`.) -/
-theorem pile_eq_braces_partial :
-    (samplePrograms.all fun p => okL p && !p.isEmpty && pileEqBraces 4 1 p) = true ∧
-    ((everyNth 11 samplePrograms).all fun p => pileEqBraces 1 3 p) = true := by
-  constructor <;> decide +kernel
+example :
+    (linearize (piledProg 4 1 [.block [1, 86] [.line [1, 77, 3], .block [38, 1, 61] [.line [1]], .line [1]], .line [1]])).map
+      (·.tag) =
+    [kwSetTab, 1, 86, kwSetTab, 1, 77, 3, kwBackSet, 38, 1, 61, kwSetTab, 1, kwBackTab, kwBackSet, 1, kwBackTab,
+     kwBackSet, 1, kwBackTab] := by
+  decide +kernel
 
 end AldorVerif.Linear
